@@ -106,3 +106,21 @@ Definition rs_spec (q s r1 : bool) : bool := negb r1 && (s || q).   (* Q1 := NOT
 (* prefixes of a trace, as reversed histories, oldest prefix first *)
 Fixpoint hists {A} (acc : list A) (tr : list A) : list (list A) :=
   match tr with [] => [] | x :: tr' => (x :: acc) :: hists (x :: acc) tr' end.
+
+(* CTUD as IEC 61131-3 Table 45 words it: CU and CD are R_EDGE inputs, so "CU" / "CD" below are the rising edges of the sampled
+   inputs; reset wins over load; simultaneous edges cancel; the count saturates at the limits of CV's type *)
+Fixpoint ctud_spec_run (lo hi cv : Z) (pcu pcd : bool) (tr : list (bool * bool * bool * bool * Z)) : list (bool * bool * Z) :=
+  match tr with
+  | [] => []
+  | (cu, cd, r, ld, pv) :: tr' =>
+      let up := cu && negb pcu in
+      let down := cd && negb pcd in
+      let cv' := if r then 0 else if ld then pv else
+                 match up, down with
+                 | true, true => cv
+                 | true, false => if cv <? hi then cv + 1 else cv
+                 | false, true => if lo <? cv then cv - 1 else cv
+                 | false, false => cv
+                 end in
+      (pv <=? cv', cv' <=? 0, cv') :: ctud_spec_run lo hi cv' cu cd tr'
+  end.
